@@ -71,10 +71,12 @@ def _tree_hash(root):
 
 
 def _sync():
-    """copy /repo's *working tree* to the fixed scratch path (mtimes kept, so cargo stays incremental)"""
+    """copy /repo's *working tree* to the fixed scratch path. Files are compared by checksum and a file whose content changed gets the
+    time of the copy as its mtime (no -t): cargo decides freshness by mtime, and a source file that differs from the last build but
+    carries an older mtime (another clone of the repository, a file restored from git) would otherwise not be rebuilt."""
     src = os.path.join(SCRATCH, "src")
     os.makedirs(src, exist_ok=True)
-    subprocess.run(["rsync", "-a", "--delete", "--exclude", "/target", "--exclude", "/.git", "--exclude", "/tests",
+    subprocess.run(["rsync", "-rlpgoD", "--checksum", "--delete", "--exclude", "/target", "--exclude", "/.git", "--exclude", "/tests",
                     "--exclude", "/docs", "--exclude", "/res", REPO + "/", src + "/"], check=True)
     return src
 
